@@ -3,7 +3,7 @@
    continuation entries resolve() writes, read back by __missing__'s leading-code-object path). *)
 From Coq Require Import ZArith List Bool Arith.
 Import ListNotations.
-From OvldV Require Import Model.Order Model.Ty Model.Codec Model.Resolve Proofs.ResolveNext.
+From OvldV Require Import Model.Order Model.Ty Model.Codec Model.Resolve Spec.Dispatch Proofs.ResolveNext Proofs.ResolveChain Proofs.ResolveSub.
 
 (* FULL STATEMENT: call_next(args) from method c invokes what resolution would choose had c and everything ranked above it
    not been registered.
@@ -11,9 +11,8 @@ From OvldV Require Import Model.Order Model.Ty Model.Codec Model.Resolve Proofs.
    single-handler ranks, the outcome is the first rank of what lies below (C07_next_is_below) and that equals the
    resolution of the candidate list -- with the specificity tuples it has for this call -- minus c and everything
    ranked above it (C07_next_is_lookup_without_above): the stable sort commutes with the removal and _pull restarts
-   with nothing processed.  NOT in the theorem (labelled partial): that removing the methods themselves (not only the
-   candidates) leaves the specificity tuples unchanged -- true when the call is chain_applicable, false otherwise
-   (KF-01); and ranks containing value-dependent methods (KF-08, KF-12: Props/C10.v). *)
+   with nothing processed.  Removing the methods themselves (not only the candidates) changes the specificity tuples; on chain_applicable
+   calls that does not matter (C07_next_is_reduced_function below), elsewhere it does (KF-01); and ranks containing value-dependent methods (KF-08, KF-12: Props/C10.v). *)
 Theorem C07_next_is_below : forall sub hasm chk fresh ms k cs caller rest,
   candidates sub hasm chk fresh ms k = Ok cs -> below (sort_desc cs) caller = Some rest ->
   lookup_next sub hasm chk fresh ms caller k = lookup_sorted rest.
@@ -26,6 +25,26 @@ Theorem C07_next_is_lookup_without_above : forall sub hasm chk fresh ms k cs cal
     lookup_next sub hasm chk fresh ms caller k = lookup_cs (filter (fun c => negb (memb (cid c) above)) cs).
 Proof. exact next_is_lookup_without_above. Qed.
 Print Assumptions C07_next_is_lookup_without_above.
+
+(* THE FULL STATEMENT on calls whose classes fall under pairwise comparable registered types at every position
+   (chain_applicable: every call under single inheritance), for methods without re-registered signatures (all
+   tiebreaks 0): call_next from c returns what the documented rule chooses for the function holding only the methods
+   that remain when c and everything ranked above it are removed -- the method, 'No method', or the ambiguity.
+   (The specificity tuples kept from the original call order the remaining candidates as the remaining methods' own
+   tuples would: on chains level comparisons are class comparisons.) *)
+Definition Refl (sub : nat -> nat -> bool) := forall c, sub c c = true.
+Definition Antisym (sub : nat -> nat -> bool) := forall c d, sub c d = true -> sub d c = true -> c = d.
+
+Theorem C07_next_is_reduced_function : forall sub hasm chk fresh, Refl sub -> Antisym sub ->
+  forall ms k cs caller rest,
+  NoDup (map m_id ms) -> static_ms ms = true -> static_key k = true ->
+  chain_applicable sub ms k = true -> ties_zero ms = true ->
+  candidates sub hasm chk fresh ms k = Ok cs -> below (sort_desc cs) caller = Some rest ->
+  exists above, In caller above /\
+    verdict_of (lookup_next sub hasm chk fresh ms caller k)
+    = Some (spec_outcome sub (filter (fun m => negb (memb (m_id m) above)) ms) k).
+Proof. exact next_is_reduced_function. Qed.
+Print Assumptions C07_next_is_reduced_function.
 
 (* when the current method is not applicable to args, call_next behaves like a fresh call *)
 Theorem C07_foreign_caller : forall sub hasm chk fresh ms k cs caller,
